@@ -354,6 +354,10 @@ def lib_wac():
                    "exports": [("f", fA), ("ns:p/i", Ii), ("ns:p/k@1.0.0", Ik), ("ns:q/j", Ii), ("ns:r/j", Ik), ("g", fB), ("h", Ii)]},
             # an import named like a plain export of the provider next to a path ending in `/i`
             "wt": {"name": "test:tgt", "version": None, "imports": [("h", Ii), ("ns:p/i", Ii)], "exports": [("run", fA)]},
+            # import names of the url / locked-dep forms: an `@` before the last `/`
+            "wo": {"name": "test:odd", "version": None,
+                   "imports": [("url=<https://user@example.com/dep>", fA), ("locked-dep=<foo:dep@1.0.0>,integrity=<sha256-q/8=>", fA)],
+                   "exports": [("run", fA)]},
             # C11: imports a lower version than the target world of package ns:v@1.2.0 offers
             "wv": {"name": "test:vcons", "version": None, "imports": [("ns:v/i@1.0.0", Ii)], "exports": [("run", fA)]},
             "wc": {"name": "test:cons", "version": None,
